@@ -110,11 +110,21 @@ def generate(rng, tier, profile='default'):
                     'shape': rng.choice(SHAPES)})
   max_ops = 12 if tier == 'quick' else 40
   n_ops = rng.randrange(2, max_ops + 1)
-  if rng.random() < 0.01:
+  p_read = rng.choice((0.1, 0.25, 0.4))
+  r_scale = rng.random()
+  if r_scale < 0.01:
     # a long stream into a big queue: far more pushes than capacity
     n_ops = rng.randrange(80, 400)
     ks[0] = rng.choice((13, 21, 34, 64))
-  p_read = rng.choice((0.1, 0.25, 0.4))
+  elif r_scale < 0.013:
+    # capacities beyond platform thresholds (small-int cache at 256, powers
+    # of two), overflowed by a few hundred pushes, few reads
+    ks[0] = rng.choice((255, 256, 257, 300, 512, 1000))
+    n_ops = ks[0] + rng.randrange(20, 260)
+    p_read = 0.004
+    for cl in clients:
+      if cl['h'] == 0 and cl['shape'] in ('constant', 'ties'):
+        cl['shape'] = 'random'
   p_mut = rng.choice((0.0, 0.3, 0.6))
   ops = []
   sent = [0] * n_clients
